@@ -22,12 +22,13 @@ Definition model_op2 (m : mutator) : option op2 :=
     | M_MultiplexerSignal_RemoveSignal => Some (MuxRemove h h)
     | M_MultiplexerSignal_ClearSignalGroup => Some (MuxClearGroup h 0%Z)
     | M_MultiplexerSignal_ClearAllSignalGroups => Some (MuxClearAll h)
-    | M_NewSignalType | M_NewSignalUnit | M_NewAttribute | M_NewCANIDBuilder => Some (L3 (L1 NewOther))
+    | M_NewSignalType | M_NewSignalUnit | M_NewCANIDBuilder => Some (L3 (L1 NewOther))
+    | M_NewAttribute => Some (L3 (NewAttr AString))
     | M_Clone => Some (EnumClone h)   (* Clone of a definition without children only consumes a handle (NewOther); SignalEnumValue.Clone is EvalClone *)
     | M_StandardSignal_SetType => Some (L3 (StdSetType h None true))
     | M_StandardSignal_SetUnit => Some (L3 (StdSetUnit h None))
     | M_EnumSignal_SetEnum => Some (L3 (EnumSetEnum h None true))
-    | M_AssignAttribute => Some (L3 (Assign h None None))
+    | M_AssignAttribute => Some (L3 (Assign h None VOther))
     | M_RemoveAttributeAssignment => Some (L3 (RemoveAssign h h))
     | M_RemoveAllAttributeAssignments => Some (L3 (RemoveAllAssign h))
     | M_Bus_SetCANIDBuilder => Some (L3 (BusSetBuilder h None))
